@@ -261,3 +261,6 @@ func NewVerifierFromKey(key string) (note.Verifier, error) {
 	}
 	return &Verifier{K: UFU64("keyOfText", key), N: UFStr("nameOfText", key)}, nil
 }
+
+//wsym:replace io.WriteString
+func IOWriteString(w io.Writer, s string) (int, error) { return w.Write([]byte(s)) }
